@@ -7,7 +7,7 @@ ID = "C14"
 LEAN_MODULE = "Ucfg.Props.C14"
 LEVEL_TEXT = 'Every error the model raises is typed with Reason and Class: per site (conversion, getter, path get/set, validation) and LIFTED to the whole typed unpacker (unpack_error_typed / unpack_failure_is_ucfg_error: for every target type without interface{} - structs with any tags incl. inline, pointers, slices, arrays, maps, regexp, Config - every pre-filled value, option set and configuration, an error returned by Unpack is a ucfg.Error; induction over the fuel with a claim per model function); path and source in the message are decided on the implementation with exactly one injected fault confirmed by the model (metadata is not modelled: partial).'
 CORRESPONDENCE = "Err values of Unpack/Path/Conv models ~ errors returned by NewFrom / Merge / Unpack / getters / Remove / Has / CountField"
-RULE = ("valid (configuration, target type) pairs from C04's generators with exactly ONE fault injected at a random setting at any depth "
+RULE = ("Plus: one *Config of defaults merged as it is into the root and, through a handle, into an object below it, a fault in a setting that came from it (shared-defaults). Main stream: valid (configuration, target type) pairs from C04's generators with exactly ONE fault injected at a random setting at any depth "
         "(inside lists, maps, pointers, inline fields): wrong kind, failed conversion, out of range, failed validator, wrong list "
         "length, unparsable duration/regexp, a primitive where an object is required; with and without MetaData(source); in a third of the "
         "cases one list of the configuration is grown to its final form by a later Merge (AppendValues, PrependValues, or a longer list "
@@ -120,7 +120,30 @@ def gen(rng, tier):
         yield c
     yield from gen_api_errors(rng.fork("api"), n // 5)
     yield from gen_unpackers(rng.fork("unpackers"), n // 5)
+    yield from gen_shared_defaults(rng.fork("shared-defaults"), n // 20)
     yield from gen_via_child(rng.fork("via-child"), n // 10)
+
+
+def gen_shared_defaults(rng, n):
+    """one *Config of defaults merged as it is into the root AND, through a handle, into an object below the root (the
+    defaults pattern); a fault in a setting that came from it is named by the path it has in the config that is unpacked"""
+    for i in range(n):
+        k1 = rng.pick(["output", "srv"])
+        fk, fty, bad, good = rng.pick([("timeout", "int", S("abc"), U(5)), ("port", "uint8", U(300), U(80)), ("ttl", "duration", S("1 parsec"), S("2s"))])
+        ty = TG.T("struct", f=[{"n": "F", "tag": fk, "v": "", "ty": TG.T(fty)}, {"n": "Name", "tag": "name", "v": "", "ty": TG.T("string")},
+                               {"n": "O", "tag": k1, "v": "", "ty": TG.T("struct", f=[{"n": "Name", "tag": "name", "v": "", "ty": TG.T("string")},
+                                                                                    {"n": "Extra", "tag": "extra", "v": "", "ty": TG.T("string")}])}])
+        def shared(v):
+            return {"shared": "D", "c": {"v": M([(fk, v), ("extra", S("e"))]), "opts": []}}
+        frm = M([("name", S("top")), (k1, M([("name", S("sub"))]))])
+        order = rng.chance(0.5)
+        def merges(v):
+            ms = [{"b": shared(v), "opts": []}, {"at": k1, "b": shared(v), "opts": []}]
+            return ms if order else ms[::-1]
+        c = {"k": "unpack", "ty": ty, "old": None, "from": frm, "copts": [opt("PathSep", ".")], "uopts": [opt("PathSep", ".")],
+             "merges": merges(bad), "validFrom": M([("name", S("top")), (fk, good), ("extra", S("e")), (k1, M([("name", S("sub")), (fk, good), ("extra", S("e"))]))]),
+             "faultPath": fk, "strictErr": False, "_tag": "fault/shared-defaults", "_nt": True, "_sig": "shareddef|%s|%s|%s" % (fk, k1, order)}
+        yield c
 
 
 def gen_via_child(rng, n):
